@@ -106,4 +106,32 @@ theorem rpc_subjects_hygienic (m cid : Bytes) (hcid : cid.all okByte = true) (hn
     · exact hyg_prefix _ _ (by decide) hn
     · exact hyg_prefix2 _ _ _ (by decide) hn (by decide)
 
+/-- The same from validity alone: whatever resource id (and method) passes the validators yields
+    hygienic subjects — this is what the HTTP handlers rely on after `PathToRID` / `PathToRIDAction`. -/
+theorem subjects_hygienic_of_valid (cid : Bytes) (hcid : cid.all okByte = true) (hne : cid ≠ [])
+    (k : RpcKind) (rid method : Bytes) (hv : isValidRID rid true = true)
+    (hm : (k = .call ∨ k = .auth) → isValidRIDPart method = true) :
+    ∀ s ∈ subjectsFor cid k rid method, hygienic s = true := by
+  have hn := name_ok_of_valid cid rid hcid hne hv
+  intro s hs
+  cases k <;> simp only [subjectsFor, List.mem_cons, List.not_mem_nil, or_false] at hs
+  · rcases hs with rfl | rfl | rfl
+    · exact hyg_prefix _ _ (by decide) hn
+    · exact hyg_prefix _ _ (by decide) hn
+    · exact hyg_prefix _ _ (by decide) hn
+  · rcases hs with rfl | rfl | rfl
+    · exact hyg_prefix _ _ (by decide) hn
+    · exact hyg_prefix _ _ (by decide) hn
+    · exact hyg_prefix _ _ (by decide) hn
+  · have hmm := nameOK_of_part (hm (Or.inl rfl))
+    rcases hs with rfl | rfl
+    · exact hyg_prefix _ _ (by decide) hn
+    · exact hyg_prefix2 _ _ _ (by decide) hn hmm
+  · have hmm := nameOK_of_part (hm (Or.inr rfl))
+    rcases hs with rfl
+    exact hyg_prefix2 _ _ _ (by decide) hn hmm
+  · rcases hs with rfl | rfl
+    · exact hyg_prefix _ _ (by decide) hn
+    · exact hyg_prefix2 _ _ _ (by decide) hn (by decide)
+
 end Resgate
